@@ -128,10 +128,36 @@ CFG_VALID = gen.Cfg(esc=False, odd=0.4, invalid=False, incomplete=True, max_ops=
 SGR = re.compile('\x1b\\[([\x20-\x3f]*)m')
 
 
+def flags_ok(o, v, where):
+    per = per_char(v)
+    used = []
+    for p in per:
+        for x in p:
+            if x not in used:
+                used.append(x)
+    ev = all(exp_valid(x) for x in used)
+    eps = [exp_parsable(x) for x in used]
+    if v.is_formatting_valid() is not ev:
+        o.fail('is_formatting_valid', '%s %s: is_formatting_valid() = %r, settings in use %r' % (where, describe(v), v.is_formatting_valid(), used))
+    if None not in eps and v.is_formatting_parsable() is not all(eps):
+        o.fail('is_formatting_parsable', '%s %s: is_formatting_parsable() = %r, settings in use %r' % (where, describe(v), v.is_formatting_parsable(), used))
+
+
 def eval_value(case):
     o = Outcome()
+    prog = case['p']
+    ip = Interp()
     try:
-        v = Interp().build_checked(case['p'])
+        # the flags are queried (and the value rendered) after every step of the history, not only at its end
+        v = ip.build({'cls': prog.get('cls'), 'ctor': prog['ctor'], 'ops': []})
+        flags_ok(o, v, 'after constructor')
+        for i, op in enumerate(prog.get('ops', [])):
+            v = ip.step(v, op)
+            str(v)
+            flags_ok(o, v, 'after step %d (%s)' % (i, op.get('op')))
+            if o.fails:
+                return o
+        per_char(v)
     except BuilderInvalid:
         o.skipped = 'builder_invalid'
         return o
@@ -214,7 +240,14 @@ def self_test():
     assert exp_parsable('107') and not exp_parsable('108') and exp_parsable('10') and exp_parsable('59') and not exp_parsable('57')
 
 
+CFG_HIST = gen.Cfg(esc=False, odd=0.45, invalid=True, incomplete=True, max_ops=6, alphabet='aab', min_text=2, max_text=6, cls_s=0.1,
+                   ops=['replace'] * 6 + ['iadd'] * 3 + ['apply'] * 3 + ['remove'] * 2 + ['clip', 'clear', 'simplify', 'fmtmatch', 'unfmtmatch', 'rjust', 'strip',
+                                                                                         'assign', 'add', 'join', 'expandtabs', 'case'])
+
+
 SUBS = [
+    Sub('flag_history', eval_value, strategy=lambda: st.fixed_dictionaries({'p': gen.prog(CFG_HIST)}), quick=500, thorough=8000,
+        rule='histories of (mostly in-place) mutators on two-letter texts with valid, invalid and unparsable settings in receiver and operands; flags queried after every step'),
     Sub('texts_exhaustive', eval_text, enumerate=enum_core,
         rule='all texts over {0,1,2,3,5,8,;,space,m} of length <=5 (quick) / <=6 (thorough) plus every code / colour value 0..299',
         exhaustive_note='every setting text over the 9-symbol core alphabet up to the length bound'),
@@ -223,3 +256,6 @@ SUBS = [
         quick=400, thorough=6000),
     Sub('guaranteed', eval_guaranteed, enumerate=enum_guaranteed, exhaustive_note='codes 0..255 as int/str/list; helper results for every 8-bit value'),
 ]
+
+# thorough tier: atheris / libFuzzer campaigns (fuzz/target.py) with this sub-check's evaluate() as the oracle
+FUZZ = [dict(sub='texts_generated', runs=300000, shards=4, seeds=[b'\x15\x08\x05\x08\x01', b'\x01\x0f'])]
